@@ -1,6 +1,8 @@
 (* CmdParse.v -- model of doit/cmdparse.py (CmdOption, CmdParse, DefaultUpdate) and of the part of
    CPython's Lib/getopt.py it is built on (getopt, do_longs, long_has_args, do_shorts,
-   short_has_arg; read from /root/.pyenv/versions/3.12.1/lib/python3.12/getopt.py).
+   short_has_arg; read from /root/.pyenv/versions/3.12.1/lib/python3.12/getopt.py); and of the two
+   passes DoitMain.run / Command.parse_execute make over the command line (doit/doit_cmd.py 208-310,
+   doit/cmd_base.py 78-150, 451-455, 510-513, 524-528: section "the two passes over the command line").
    Definitions only.
 
    Strings are Coq [string]s (bytes).  Modelled concretely: all of getopt, option lookup, bool
@@ -462,6 +464,179 @@ Definition parse_only := parse_only_gen false.
 
 End WithConv.
 
+(* ------------------------------------------------------------------ the two passes over the command line
+   doit/doit_cmd.py DoitMain.run (232-310), process_args (208-221); doit/cmd_base.py Command.__init__
+   (78-105), Command.cmdparser (113-124), Command.parse_execute (141-150), DoitCmdBase.get_options
+   (451-455), get_backends (510-513), DoitCmdBase.execute (524-528).
+
+   `doit [loader options] [sub-command] [options of the command] [positional ...]`:
+   pass 1 (run 263-271) parses the options of the task loader (task_loader.cmd_options: -f/--file,
+   -d/--dir, -k/--seek-file for the DodoTaskLoader) that precede the sub-command name, with a parser of
+   its own and NO dictionary of defaults; what it finds is handed to the command as `opt_vals`;
+   pass 2 (parse_execute) parses what follows the sub-command name with the parser of the command
+   (declared defaults overwritten by the configuration, then the environment, then the command line)
+   and then writes `opt_vals` over the result, key by key: `for key, val in self.opt_vals.items():
+   params[key] = val` (repair 7ef8d1a; before it: `params.update(self.opt_vals)`). *)
+
+(* dict.update(other): existing keys keep their position, new keys are appended.  On a DefaultUpdate
+   it is the C-level dict.update: __setitem__ is not called, _non_default_keys is NOT extended *)
+Definition items_update (l u : list (name * value)) : list (name * value) :=
+  fold_left (fun l kv => items_set l (fst kv) (snd kv)) u l.
+Definition dict_update (d : params) (u : list (name * value)) : params :=
+  {| d_items := items_update (d_items d) u; d_nd := d_nd d |}.
+(* for key, val in other.items(): d[key] = val -- through DefaultUpdate.__setitem__: every key is
+   marked non-default *)
+Definition dict_assign (d : params) (u : list (name * value)) : params :=
+  fold_left (fun d kv => d_setitem d (fst kv) (snd kv)) u d.
+
+(* process_args (208-221): every argument that does not start with '-' and contains '=' is a command
+   line variable (name, value) and is taken out of the arguments; an empty argument stays (repair
+   16042b9: `not arg.startswith('-')`; `arg[0]` raised IndexError before) *)
+Fixpoint process_args (args : list string) : list (string * string) * list string :=
+  match args with
+  | [] => ([], [])
+  | a :: r =>
+      let (vs, rest) := process_args r in
+      if sprefix (s1 ch_dash) a then (vs, a :: rest)
+      else match split_eq a with
+           | (n, Some v) => ((n, v) :: vs, rest)
+           | (_, None) => (vs, a :: rest)
+           end
+  end.
+
+(* a sub-command: its name, whether it is a DoitCmdBase (a command that loads tasks: its options are
+   base_options + the options of the loader + its own, and `execute` merges DOIT_CONFIG) or a plain
+   Command (its own options only), and its own cmd_options *)
+Record command := { cm_name : string; cm_task : bool; cm_opts : list cmd_option }.
+
+Record cli := {
+  c_base : list cmd_option;                          (* DoitCmdBase.base_options *)
+  c_backend : name * list string;                    (* get_backends: option whose choices are replaced, the names of the backends *)
+  c_loader : list cmd_option;                        (* task_loader.cmd_options *)
+  c_cmds : list command;                             (* sub_cmds (get_cmds) *)
+  c_config : list (string * list (name * value))     (* self.config: section -> items (extra_config, then INI/TOML files) *)
+}.
+
+Fixpoint find_cmd (cs : list command) (nm : string) : option command :=
+  match cs with [] => None | c :: r => if seqb (cm_name c) nm then Some c else find_cmd r nm end.
+Fixpoint cfg_section (cfg : list (string * list (name * value))) (s : string) : list (name * value) :=
+  match cfg with [] => [] | (n, items) :: r => if seqb n s then items else cfg_section r s end.
+
+(* Command.__init__ 96-101: GLOBAL, updated with the section named after the command *)
+Definition config_vals (cfg : list (string * list (name * value))) (nm : string) : list (name * value) :=
+  items_update (items_update [] (cfg_section cfg "GLOBAL")) (cfg_section cfg nm).
+
+(* run 276-282: the first argument if it names a sub-command, 'run' otherwise *)
+Definition select_cmd (cs : list command) (args : list string) : string * list string :=
+  match args with
+  | a :: r => match find_cmd cs a with Some _ => (a, r) | None => ("run"%string, args) end
+  | [] => ("run"%string, [])
+  end.
+
+Definition set_opt_choices (o : cmd_option) (cs : list string) : cmd_option :=
+  {| o_name := o_name o; o_ty := o_ty o; o_default := o_default o; o_short := o_short o; o_long := o_long o;
+     o_inverse := o_inverse o; o_choices := cs; o_env := o_env o |}.
+Definition set_choices_in (st : pstate) (k : name) (cs : list string) : pstate :=
+  map (fun o => if N.eqb (o_name o) k then set_opt_choices o cs else o) st.
+
+(* what a command observes: params as handed to `execute` (= what loader.setup receives), params after
+   DoitCmdBase.execute merged DOIT_CONFIG (update_defaults, 528), the positional arguments *)
+Record run_obs := { r_cmd : string; r_setup : params; r_final : params; r_pos : list string }.
+
+Section TwoPass.
+Variable conv : N -> string -> option value.
+
+(* run 263-271.  parse_only without `params` starts from a plain empty dict: only the options that
+   are written end up in it; a list option finds no list to extend (KeyError, not caught: Crash).
+   A CmdParseError (an option the loader does not know, an ill-typed value) is "normal": nothing is
+   taken from the command line and everything is left to the command *)
+Definition pre_parse (lst : pstate) (all_args : list string) : outcome (list (name * value) * list string) :=
+  match fst (parse_only conv lst d_empty all_args) with
+  | Ok (d, args) => Ok (d_items d, args)
+  | ParseError => Ok ([], all_args)
+  | Crash => Crash
+  end.
+
+(* Command.parse_execute (141-153), up to the call of self.execute(params, args).  A parser without
+   options returns a plain dict (cmdparse.py 321), which keeps no non-default marks *)
+Definition parse_execute (st : pstate) (opt_vals : list (name * value)) (env : name -> option string)
+           (in_args : list string) : outcome (params * list string) * pstate :=
+  match parse conv st env in_args with
+  | (Ok (d, args), st') => (Ok ((if is_nil st then dict_update d opt_vals else dict_assign d opt_vals), args), st')
+  | r => r
+  end.
+
+(* the code before the repair 7ef8d1a: `params.update(self.opt_vals)` -- the keys are not marked *)
+Definition parse_execute_update (st : pstate) (opt_vals : list (name * value)) (env : name -> option string)
+           (in_args : list string) : outcome (params * list string) * pstate :=
+  match parse conv st env in_args with
+  | (Ok (d, args), st') => (Ok (dict_update d opt_vals, args), st')
+  | r => r
+  end.
+
+(* NOT the code: the variant that installs opt_vals as defaults of the parser before parsing
+   (`self.cmdparser.overwrite_defaults(self.opt_vals)`), kept to state what goes wrong with it *)
+Definition parse_execute_as_defaults (st : pstate) (opt_vals : list (name * value)) (env : name -> option string)
+           (in_args : list string) : outcome (params * list string) * pstate :=
+  match overwrite_defaults conv st opt_vals with
+  | (Ok _, st1) => parse conv st1 env in_args
+  | (ParseError, st1) => (ParseError, st1)
+  | (Crash, st1) => (Crash, st1)
+  end.
+
+(* Command.cmdparser (113-124); for a DoitCmdBase also get_backends (510-513), which runs in the
+   constructor and replaces the choices of the option `backend` AFTER the configuration was applied *)
+Definition cmd_options_of (cl : cli) (c : command) : list cmd_option :=
+  if cm_task c then c_base cl ++ c_loader cl ++ cm_opts c else cm_opts c.
+Definition cmd_parser (cl : cli) (c : command) : outcome unit * pstate :=
+  match overwrite_defaults conv (mk_parser (cmd_options_of cl c)) (config_vals (c_config cl) (cm_name c)) with
+  | (Ok _, st1) => (Ok tt, if cm_task c then set_choices_in st1 (fst (c_backend cl)) (snd (c_backend cl)) else st1)
+  | r => r
+  end.
+
+(* the command object created and executing in_args (run 284-313): Ok = self.execute is reached with
+   these params; ParseError = DoitMain.run returns 3: a CmdParseError or any other Exception raised
+   while the command and its parser are built (the parser of a DoitCmdBase is built in its constructor,
+   get_backends; since the repair a0cef0e the constructor is called inside the try block) or inside
+   parse_execute.  A DoitCmdBase whose parser has no option at all gets a plain dict, on which
+   update_defaults does not exist (AttributeError -> 3) *)
+Definition exec_cmd (cl : cli) (c : command) (opt_vals : list (name * value)) (env : name -> option string)
+           (dodo : list (name * value)) (in_args : list string) : outcome run_obs :=
+  match cmd_parser cl c with
+  | (Ok _, st1) =>
+      match fst (parse_execute st1 opt_vals env in_args) with
+      | Ok (p, pos) =>
+          if (cm_task c && is_nil st1)%bool then ParseError
+          else Ok {| r_cmd := cm_name c; r_setup := p;
+                     r_final := if cm_task c then update_defaults p dodo else p; r_pos := pos |}
+      | _ => ParseError
+      end
+  | _ => ParseError
+  end.
+
+(* DoitMain.run (232-310); `--version` / `--help` as first argument run no command (250-261) *)
+Definition main_run (cl : cli) (env : name -> option string) (dodo : list (name * value))
+           (all_args : list string) : outcome run_obs :=
+  let special := match all_args with
+                 | a :: _ => if (seqb a "--version" || seqb a "--help")%bool then Some a else None
+                 | [] => None
+                 end in
+  match special with
+  | Some a => Ok {| r_cmd := a; r_setup := d_empty; r_final := d_empty; r_pos := [] |}
+  | None =>
+      match pre_parse (mk_parser (c_loader cl)) all_args with
+      | Ok (opt_vals, cmd_args) =>
+          let (nm, in_args) := select_cmd (c_cmds cl) (snd (process_args cmd_args)) in
+          match find_cmd (c_cmds cl) nm with
+          | None => ParseError                 (* no 'run' command: KeyError inside the try block -> 3 *)
+          | Some c => exec_cmd cl c opt_vals env dodo in_args
+          end
+      | _ => Crash
+      end
+  end.
+
+End TwoPass.
+
 (* ------------------------------------------------------------------ observation encoding
    (used only by the correspondence check harness/c16.py) *)
 Open Scope Z_scope.
@@ -539,5 +714,44 @@ Definition scenario (legacy : bool) (opts : list cmd_option) (cfg : list (name *
                       if is_nil st1 then [98] else params_z (update_defaults d dodo)
                   | _ => []
                   end
+  | _ => []
+  end.
+
+(* ---- the two passes: encodings and the scenarios run by harness/c16.py (parts main / parse_execute) *)
+Definition run_obs_z (r : outcome run_obs) : list Z :=
+  outcome_z r :: match r with
+                 | Ok o => str_z (r_cmd o) ++ params_z (r_setup o) ++ params_z (r_final o)
+                           ++ Z.of_nat (List.length (r_pos o)) :: flat_map str_z (r_pos o)
+                 | _ => []
+                 end.
+Definition mkcmd (n : string) (t : bool) (os : list cmd_option) : command := {| cm_name := n; cm_task := t; cm_opts := os |}.
+Definition mkcli (b : list cmd_option) (bk : name) (bc : list string) (l : list cmd_option) (cs : list command)
+           (cfg : list (string * list (name * value))) : cli :=
+  {| c_base := b; c_backend := (bk, bc); c_loader := l; c_cmds := cs; c_config := cfg |}.
+Definition main_scenario (cl : cli) (env : list (name * string)) (dodo : list (name * value)) (argv : list string) : list Z :=
+  run_obs_z (main_run conv_ref cl (env_of env) dodo argv).
+(* vars found by process_args: n, then name/value strings *)
+Definition process_args_z (args : list string) : list Z :=
+  let (vs, rest) := process_args args in
+  0 :: Z.of_nat (List.length vs) :: flat_map (fun nv => str_z (fst nv) ++ str_z (snd nv)) vs
+  ++ Z.of_nat (List.length rest) :: flat_map str_z rest.
+(* cmd = Cmd(config=.., opt_vals=ov); cmd.parse_execute(args) twice on the same object: outcome, params,
+   positional, then the defaults of the options of cmd.cmdparser *)
+Definition pe_scenario (as_defaults : bool) (opts : list cmd_option) (cfg : list (name * value)) (ov : list (name * value))
+           (env : list (name * string)) (argv : list string) : list Z :=
+  let st0 := mk_parser opts in
+  let (o1, st1) := overwrite_defaults conv_ref st0 cfg in
+  outcome_z o1 :: pstate_z st1 ++
+  match o1 with
+  | Ok _ =>
+      let one (st : pstate) :=
+        let (r, st') := (if as_defaults then parse_execute_as_defaults else parse_execute) conv_ref st ov (env_of env) argv in
+        (outcome_z r :: match r with
+                        | Ok (d, args) => params_z d ++ Z.of_nat (List.length args) :: flat_map str_z args
+                        | _ => []
+                        end ++ pstate_z st', st') in
+      let (z2, st2) := one st1 in
+      let (z3, _) := one st2 in
+      z2 ++ z3
   | _ => []
   end.
